@@ -946,12 +946,13 @@ func ruleP16AmPm(p *Prog, r *Report) {
 	if !r.anchorFn(rule, rd, "klog.NewTimeFromString") {
 		return
 	}
-	// the hour passed to newTime is a phi / cell; collect assignments with guards
+	// the hour passed to newTime comes about in several ways (assignments under ifs, or the
+	// returns of a conversion helper): collect them with the conditions they depend on
 	var okAm, okPm, okRange bool
-	eachInstr(rd, func(in ssa.Instruction) {
+	eachInstrIn(withAnons(rd), func(in ssa.Instruction) {
 		// range check: hour < 1 || hour > 12 -> error
 		if iff, ok := in.(*ssa.If); ok {
-			if bo, ok := iff.Cond.(*ssa.BinOp); ok {
+			if bo, ok := normCmp(iff.Cond); ok {
 				k, isK := constInt(bo.Y)
 				// hour > 12 / hour < 1, or their complements hour <= 12 / hour >= 1 (De Morgan),
 				// or the same bounds spelled with the neighbouring constant
@@ -964,45 +965,46 @@ func ruleP16AmPm(p *Prog, r *Report) {
 			}
 		}
 	})
-	for _, b := range rd.Blocks {
-		for _, in := range b.Instrs {
-			ph, ok := in.(*ssa.Phi)
-			if !ok || !isIntType(ph.Type()) {
-				continue
-			}
-			for i, e := range ph.Edges {
-				pb := b.Preds[i]
-				gs := append(guardsOf(pb), edgeGuard(pb, b)...)
-				am, pm, eq12, lt12 := false, false, false, false
-				for _, g := range gs {
-					bo, ok := g.Cond.(*ssa.BinOp)
-					if !ok || !g.Pol {
+	newTimeFn := p.fn("klog", "newTime")
+	for _, nt := range callsTo(rd, newTimeFn) {
+		for _, row := range valueRows(nt.Common().Args[0], 0, map[ssa.Value]bool{}) {
+			am, pm, eq12, lt12 := false, false, false, false
+			for _, g := range row.guards {
+				bo, ok := normCmp(g.Cond)
+				if !ok {
+					continue
+				}
+				op := bo.Op
+				if !g.Pol {
+					inv, known := map[token.Token]token.Token{token.LSS: token.GEQ, token.GEQ: token.LSS, token.GTR: token.LEQ, token.LEQ: token.GTR, token.EQL: token.NEQ, token.NEQ: token.EQL}[op]
+					if !known {
 						continue
 					}
-					if s, isS := constString(bo.Y); isS && bo.Op == token.EQL {
-						if s == "am" {
-							am = true
-						}
-						if s == "pm" {
-							pm = true
-						}
+					op = inv
+				}
+				if s, isS := constString(bo.Y); isS && op == token.EQL {
+					if s == "am" {
+						am = true
 					}
-					if k, isK := constInt(bo.Y); isK && k == 12 {
-						if bo.Op == token.EQL || bo.Op == token.GEQ {
-							eq12 = true // hour <= 12 is established before, so >= 12 means == 12
-						}
-						if bo.Op == token.LSS {
-							lt12 = true
-						}
+					if s == "pm" {
+						pm = true
 					}
 				}
-				if k, isK := constInt(e); isK && k == 0 && am && eq12 {
-					okAm = true
+				if k, isK := constInt(bo.Y); isK {
+					switch {
+					case k == 12 && (op == token.EQL || op == token.GEQ), k == 11 && op == token.GTR:
+						eq12 = true // hour <= 12 is established before, so >= 12 means == 12
+					case k == 12 && op == token.LSS, k == 11 && op == token.LEQ:
+						lt12 = true
+					}
 				}
-				pl := polyOf(e)
-				if pm && lt12 && pl.C == 12 && len(pl.Terms) == 1 {
-					okPm = true
-				}
+			}
+			if k, isK := constInt(row.val); isK && k == 0 && am && eq12 {
+				okAm = true
+			}
+			pl := polyOf(row.val)
+			if pm && lt12 && pl.C == 12 && len(pl.Terms) == 1 {
+				okPm = true
 			}
 		}
 	}
@@ -1164,77 +1166,94 @@ func ruleP16Fold(p *Prog, r *Report) {
 		return
 	}
 	hour, minute, shift := f.Params[0], f.Params[1], f.Params[2]
-	// the civil time is built from phis of the parameters: find the phi of hour with a constant 0 edge
-	found := false
-	for _, b := range f.Blocks {
-		for _, in := range b.Instrs {
-			ph, ok := in.(*ssa.Phi)
+	// what newTime validates as the hour (civil.Time.Hour) and what it stores as the day shift
+	var hv, sv ssa.Value
+	var at ssa.Instruction
+	eachInstr(f, func(in ssa.Instruction) {
+		st, ok := in.(*ssa.Store)
+		if !ok {
+			return
+		}
+		fa, ok := st.Addr.(*ssa.FieldAddr)
+		if !ok {
+			return
+		}
+		switch {
+		case fieldName(fa) == "Hour" && typeNameOf(fa.X.Type()) == "Time":
+			hv, at = st.Val, st
+		case fieldName(fa) == "dayShift" && typeNameOf(fa.X.Type()) == "time":
+			sv = st.Val
+		}
+	})
+	if hv == nil || sv == nil {
+		r.undecided(rule, "fold", p.pos(f.Pos()), "newTime does not build civil.Time{Hour: …} and time{dayShift: …}")
+		return
+	}
+	// the ways the hour and the shift come about (assignments under an if, or a helper's returns)
+	isFold := func(gs []Guard) (fold bool, exact bool, extra string) {
+		h24, m0, sh := false, false, false
+		for _, g := range gs {
+			bo, ok := normCmp(g.Cond)
 			if !ok {
+				if g.Pol {
+					extra = g.Cond.String()
+				}
 				continue
 			}
-			for i, e := range ph.Edges {
-				k, isK := constInt(e)
-				if !isK || k != 0 {
-					continue
-				}
-				othersAreHour := len(ph.Edges) >= 2
-				for j, o := range ph.Edges {
-					if j != i && strip(o) != ssa.Value(hour) {
-						othersAreHour = false
-					}
-				}
-				if !othersAreHour {
-					continue
-				}
-				found = true
-				pb := b.Preds[i]
-				gs := append(guardsOf(pb), edgeGuard(pb, b)...)
-				h24, m0, sh := false, false, false
-				extra := ""
-				for _, g := range gs {
-					bo, ok := g.Cond.(*ssa.BinOp)
-					if !ok {
-						extra = g.Cond.String()
-						continue
-					}
-					if !g.Pol {
-						continue
-					}
-					k2, isK2 := constInt(bo.Y)
-					if !isK2 {
-						extra = bo.String()
-						continue
-					}
-					switch strip(bo.X) {
-					default:
-						extra = bo.String()
-					case ssa.Value(hour):
-						h24 = bo.Op == token.EQL && k2 == 24
-					case ssa.Value(minute):
-						m0 = bo.Op == token.EQL && k2 == 0
-					case ssa.Value(shift):
-						sh = (bo.Op == token.LEQ && k2 == 0) || (bo.Op == token.LSS && k2 == 1)
-					}
-				}
-				r.check(extra == "", rule, "guard:only", p.pos(ph.Pos()), "nothing else decides about the fold", "the 24:00 fold additionally depends on "+extra+": 24:00 is no longer folded for every time it applies to (e.g. a sum that lands on midnight in 12-hour notation)")
-				r.check(h24 && m0 && sh, rule, "guard", p.pos(ph.Pos()), "24:00 is folded exactly when hour == 24, minute == 0 and the time is not shifted to tomorrow", "the 24:00 fold does not apply exactly to hour 24, minute 0, day shift <= 0 (e.g. <24:00 is no longer accepted)")
-				// the shift phi in the same block: shift + 1 on that edge
-				okShift := false
-				for _, in2 := range b.Instrs {
-					if ph2, ok := in2.(*ssa.Phi); ok && ph2 != ph {
-						pl := polyOf(ph2.Edges[i])
-						if pl.C == 1 && len(pl.Terms) == 1 && pl.Terms["param:"+shift.Name()] == 1 {
-							okShift = true
-						}
-					}
-				}
-				r.check(okShift, rule, "effect", p.pos(ph.Pos()), "the fold yields 0:00 of the following day (shift + 1)", "the 24:00 fold does not move the time to 0:00 of the following day")
+			op := bo.Op
+			if !g.Pol {
+				// the negative edge of one of the three tests belongs to a way that is not the fold
+				continue
+			}
+			k2, isK2 := constInt(bo.Y)
+			if !isK2 {
+				extra = bo.X.Name() + " " + op.String() + " " + bo.Y.Name()
+				continue
+			}
+			switch strip(bo.X) {
+			default:
+				extra = fmt.Sprintf("%s %s %d", bo.X.Name(), op, k2)
+			case ssa.Value(hour):
+				h24 = op == token.EQL && k2 == 24
+				fold = fold || h24
+			case ssa.Value(minute):
+				m0 = op == token.EQL && k2 == 0
+			case ssa.Value(shift):
+				sh = (op == token.LEQ && k2 == 0) || (op == token.LSS && k2 == 1)
 			}
 		}
+		return fold, h24 && m0 && sh, extra
+	}
+	found := false
+	for _, row := range valueRows(hv, 0, map[ssa.Value]bool{}) {
+		if k, isK := constInt(row.val); isK && k == 0 {
+			found = true
+			_, exact, extra := isFold(row.guards)
+			r.check(extra == "", rule, "guard:only", p.instrPos(at), "nothing else decides about the fold", "the 24:00 fold additionally depends on "+extra+": 24:00 is no longer folded for every time it applies to (e.g. a sum that lands on midnight in 12-hour notation)")
+			r.check(exact, rule, "guard", p.instrPos(at), "24:00 is folded exactly when hour == 24, minute == 0 and the time is not shifted to tomorrow", "the 24:00 fold does not apply exactly to hour 24, minute 0, day shift <= 0 (e.g. <24:00 is no longer accepted)")
+			continue
+		}
+		r.check(strip(row.val) == ssa.Value(hour), rule, "hour:else", p.instrPos(at), "otherwise the hour is the one given", "newTime validates an hour that is neither the given one nor the folded 0")
 	}
 	if !found {
 		r.bad(rule, "fold", p.pos(f.Pos()), "newTime has no 24:00 fold: 24:00 and <24:00 are rejected")
+		return
 	}
+	okShift, okElse := false, true
+	for _, row := range valueRows(sv, 0, map[ssa.Value]bool{}) {
+		pl := polyOf(row.val)
+		isShift := len(pl.Terms) == 1 && pl.Terms["param:"+shift.Name()] == 1
+		if fold, exact, _ := isFold(row.guards); fold {
+			if exact && isShift && pl.C == 1 {
+				okShift = true
+			}
+			continue
+		}
+		if !isShift || pl.C != 0 {
+			okElse = false
+		}
+	}
+	r.check(okShift && okElse, rule, "effect", p.instrPos(at), "the fold yields 0:00 of the following day (shift + 1); otherwise the shift is the one given", "the 24:00 fold does not move the time to 0:00 of the following day")
 }
 
 // remainingShape: d == sgn*(len(x.Chars) - x.PointerPosition) + constant for one Parseable x.
